@@ -323,7 +323,7 @@ def _check_case(case):
 def _scalings(tier, seed):
     out = [("bark", {}), ("mel", {})]
     lin = [(0.0, 1.0), (20.0, 3.7), (-100.0, 1e-3), (1234.5, 1e3)]
-    octv = [20.0, 1e-3, 440.0, 1e4]
+    octv = [20.0, 1e-3, 440.0, 1e4, 1e-10, 5e-11]  # incl. values at / below the implementation's internal 1e-10 floor
     if tier == "thorough":
         rng = _common.make_rng(seed, "c19:params")
         lin += [(float(rng.uniform(-1e3, 2e3)), float(10 ** rng.uniform(-4, 4))) for _ in range(6)]
